@@ -36,6 +36,16 @@ class Obs:
     def exc_name(self):
         return type(self.exc).__name__ if self.exc is not None else None
 
+    @property
+    def exc_names(self):
+        """Class names along the MRO below ValueError/Exception: a subclass of InvalidStructure still *is* one."""
+        if self.exc is None:
+            return set()
+        return {c.__name__ for c in type(self.exc).__mro__ if c not in (object, BaseException, Exception, ValueError)}
+
+    def is_a(self, *names):
+        return bool(self.exc_names & set(names))
+
     def brief(self):
         if self.ok:
             return ["ok", esc(repr(self.value))[:200]]
